@@ -1104,6 +1104,19 @@ static void do_op(char **t, int ntok)
 			ls.stack_top, ls.inc_ptr, ls.have_q, ls.q_index, ls.q_len);
 	} else if (!strcmp(op, "stdoutcheck")) {
 		fprintf(out, "r stdout %ld\n", stdout_bytes());
+	} else if (!strcmp(op, "wipe")) {
+		/* empty the fixture directory (the current directory) */
+		DIR *d;
+		struct dirent *e;
+		char buf[2048];
+		if (!rootdir[0]) die("wipe: no fixture root set");
+		d = opendir(rootdir);
+		while (d && (e = readdir(d)) != NULL) {
+			if (!strcmp(e->d_name, ".") || !strcmp(e->d_name, "..")) continue;
+			snprintf(buf, sizeof buf, "%s/%s", rootdir, e->d_name);
+			rm_rf(buf);
+		}
+		if (d) closedir(d);
 	} else if (!strcmp(op, "mkdir")) {
 		NEED(2); s1 = dec(t[1], NULL); mkdir_p(s1);
 	} else if (!strcmp(op, "mkfile")) {
